@@ -2,15 +2,20 @@
    Statements only; every proof is [exact <lemma of Proofs/ReaperProofs.v>].
    Histories (Model/Reaper.v): a transaction arrives in the mempool (any bytes, repeats included) | boot | reap |
    produce at a clock reading | the process dies inside a boot / reap / produce after k of its datastore writes
-   (every write boundary; with or without the ExecuteTxs call that follows the last durable write).  Queue-full
-   refusals are the reaps that find the queue at its bound [max]; bursts of any length are histories.
+   (every write boundary; with or without the ExecuteTxs call that follows the last durable write) | write attempt
+   number k of a boot / reap / produce returns an error once and the process lives on (a transient datastore fault at
+   EVERY write of every action: IFault).  Queue-full refusals are the reaps that find the queue at its bound [max];
+   bursts of any length are histories.
 
-   The property AS WORDED is false of the code (C11_no_loss_clock_refuted, C11_no_loss_crash_refuted: two defects of
-   block/manager.go, listed as known findings).  What holds:
-     C11_no_loss_partial            no loss, for every history in which no batch is released without its block
-                                    being saved in the same action (the guard [safe_hist] = neither defect occurs)
+   The property AS WORDED is false of the code (C11_no_loss_clock_refuted, C11_no_loss_crash_refuted,
+   C11_no_loss_fault_refuted: defects of block/manager.go, listed as known findings).  What holds:
+     C11_no_loss_partial            no loss, for every history — crashes AND write faults included — in which no batch
+                                    is handed out without its block being saved in the same action (the guard
+                                    [safe_hist] = none of the three defects occurs)
+     C11_cursor_fault_harmless_full a failed LastBatchData (cursor) write changes nothing: the block is built from the
+                                    batch in hand all the same
      C11_order_full                 release order, for EVERY history
-     C11_no_dup_full                nothing twice without crashes, for EVERY crash-free history
+     C11_no_dup_full                nothing twice without crashes, for EVERY crash-free and fault-free history
      C11_refused_handoff_full       a refused hand-off marks nothing seen (it is retried by the next reap)
      C11_queue_is_C10_spec_full     the model's queue steps are the FIFO specification C10 proves of the real queue *)
 From Coq Require Import NArith ZArith List Bool.
@@ -23,9 +28,16 @@ Arguments lostb t%N s.
    a block record, or in the queue, or still in the mempool and not marked seen (so the next reap offers it
    again); and once nothing is in flight (node up, queue empty, no block above the store height, nothing unseen in
    the mempool) every such transaction is in a committed block.  Crashes at every other write boundary, refusals of
-   any length and repeated bytes are all inside the guard.
+   any length and repeated bytes are all inside the guard, and so is a write fault at every write but one: the
+   Put of a hand-off (refused: nothing marked), a seen mark (logged: the others are made), the queue Delete (printed:
+   the batch is handed out, its record stays and is loaded again by the next start-up), the LastBatchData cursor
+   write (logged: the block is built), the final block save / the state write (error: the early-saved block is
+   re-used by the next step), the store-height write (error: the running node then refuses to produce — its state
+   is above the store height — until it is restarted; nothing is lost), the writes of a start-up (it fails).
    MISSING for _full: histories in which a non-empty batch is taken with a clock reading before the last block's
-   time, or the process dies after the queue delete and before the early block save (the two refuted cases).
+   time, the process dies after the queue delete and before the early block save, or the early block save itself
+   fails after the queue delete (the three refuted cases; [safe_hist] also excludes — conservatively — a regressed
+   clock reading together with a failed queue Delete, where the batch survives in its stale record).
    NOT PROVED: that a quiescent state is always reached (the harness drains every history and its oracle reports a
    history that does not quiesce). *)
 Theorem C11_no_loss_partial : forall (max : N) (gt : Z) (h : list item),
@@ -48,11 +60,24 @@ Proof. exact order_full. Qed.
 Print Assumptions C11_order_full.
 
 (* For EVERY crash-free history (restarts, refusals, clock regressions and repeated bytes allowed): no transaction
-   occurs twice in the block records — neither in two blocks nor twice in one. *)
+   occurs twice in the block records — neither in two blocks nor twice in one.  The property words this clause "in
+   the absence of crashes"; a write fault is not a crash, but it leaves the traces of one (a hand-off whose mark is
+   missing, a handed-out batch whose record stays), so the clause is stated for histories with neither. *)
 Theorem C11_no_dup_full : forall (max : N) (gt : Z) (h : list item),
-  crash_free h = true -> NoDup (concat (block_txs (final max gt h))).
+  crash_free h = true -> fault_free h = true -> NoDup (concat (block_txs (final max gt h))).
 Proof. exact no_dup_chain_full. Qed.
 Print Assumptions C11_no_dup_full.
+
+(* In every state (running or not, any history behind it): if write attempt k of a produce step is the
+   SetMetadata(LastBatchDataKey) of retrieveBatch — the bookkeeping write that follows GetNextBatch — then the step in
+   which that attempt FAILS leaves exactly the state, and has exactly the result, of the step without a fault: the
+   batch taken from the sequencer is built into the block. *)
+Theorem C11_cursor_fault_harmless_full : forall (max : N) (gt : Z) (s : st) (ts : Z) (k : nat),
+  nth_error (writes_of (fst (acts_of max gt s (AProduce ts)))) k = Some WMeta ->
+  step max gt s (IFault (AProduce ts) k) = step max gt s (IRun (AProduce ts)) /\
+  fst (observe max gt s (IFault (AProduce ts) k)) = fst (observe max gt s (IRun (AProduce ts))).
+Proof. exact cursor_fault_harmless. Qed.
+Print Assumptions C11_cursor_fault_harmless_full.
 
 (* A hand-off refused by a full queue changes nothing but the ghost [taken]: no transaction is marked seen. *)
 Theorem C11_refused_handoff_full : forall (max : N) (gt : Z) (s : st),
@@ -113,6 +138,28 @@ Proof.
 Qed.
 Print Assumptions C11_no_loss_crash_refuted.
 
+(* A write fault: nothing crashes, the clock never steps back; write attempt 2 of the produce step — the early
+   SaveBlockData, after the queue Delete and the cursor write — returns an error once: publishBlockInternal returns
+   "failed to save block", the batch in hand is dropped, the transaction — marked seen — is in no block record after
+   ANY continuation. *)
+Definition h_fault : list item :=
+  [IRun ABoot; IRun (AProduce 100); IArrive 7; IRun AReap; IFault (AProduce 200) 2].
+
+Lemma h_fault_lost :
+  crash_free h_fault = true /\ clock_monotone 1 0 st0 h_fault = true /\ In 7%N (taken (final 1 0 h_fault)) /\ lostb 7 (final 1 0 h_fault) = true /\
+  observe 1 0 (final 1 0 [IRun ABoot; IRun (AProduce 100); IArrive 7; IRun AReap]) (IFault (AProduce 200) 2) =
+    (9%N, [WQDel [7%N]; WMeta; WFail (WBlock 2 [7%N] 200 false)]).
+Proof. vm_compute. repeat split; try reflexivity. left; reflexivity. Qed.
+
+Theorem C11_no_loss_fault_refuted : exists (max : N) (gt : Z) (h : list item) (t : tx),
+  crash_free h = true /\ clock_monotone max gt st0 h = true /\ In t (taken (final max gt h)) /\
+  forall h', ~ In t (concat (block_txs (final max gt (h ++ h')))).
+Proof.
+  exists 1%N, 0%Z, h_fault, 7%N. destruct h_fault_lost as (A & B & C & D & _).
+  split; [exact A | split; [exact B | split; [exact C | exact (lost_forever 1 0 h_fault 7%N D)]]].
+Qed.
+Print Assumptions C11_no_loss_fault_refuted.
+
 (* ---- non-vacuity ------------------------------------------------------------------------------------------------ *)
 (* a history inside the guard with: a repeat of the same bytes in one reap (3 twice), a refusal burst (bound 1: two
    reaps refused while [3;4] waits), a crash between the queue Put and the marks (reap, k = 1: [5] is queued, 5 is
@@ -137,13 +184,43 @@ Example ex_chain :
     [(1, [WBlock 1 [] 0 true]); (7, [WBlock 1 [] 0 true; WState 1]); (1, [WHeight 1])]%N.
 Proof. vm_compute. repeat split; reflexivity. Qed.
 
+(* a history inside the guard with a write fault at every kind of write but the early block save: the queue Put (the
+   hand-off of [3;4] is refused, then retried), a seen mark (4 stays unmarked and is handed off again by the next
+   reap: it is in the chain twice), the queue Delete (the record of [3;4] stays), the cursor write, the final block save, the state write,
+   the store-height write (the node refuses to produce until it is restarted; the restart loads the stale record of
+   [3;4] again), a start-up write; drained to quiescence *)
+Definition ex_hf : list item :=
+  [IFault ABoot 0; IRun ABoot; IRun (AProduce 100); IArrive 3; IArrive 4; IFault AReap 0; IFault AReap 2;
+   IRun AReap; IFault (AProduce 200) 0; IFault (AProduce 300) 1; IArrive 5; IRun AReap; IFault (AProduce 400) 3;
+   IRun (AProduce 500); IArrive 6; IRun AReap; IFault (AProduce 600) 4; IRun (AProduce 700); IFault (AProduce 800) 4;
+   IRun (AProduce 900); IRun ABoot; IRun (AProduce 1000); IRun (AProduce 1100); IRun AReap].
+
+Example ex_hf_in_guard : safe_hist 0 0 st0 ex_hf = true /\ quiescedb (final 0 0 ex_hf) = true /\ fault_free ex_hf = false.
+Proof. vm_compute. repeat split; reflexivity. Qed.
+
+Example ex_hf_chain :
+  committed (final 0 0 ex_hf) = [[]; [3; 4]; [4]; [5]; [6]; []; [3; 4]; []]%N /\
+  released (final 0 0 ex_hf) = [[3; 4]; [4]; [5]; [6]; [3; 4]]%N /\
+  map (fun o => fst o) (observations 0 0 st0 ex_hf) = [11; 1; 3; 0; 0; 2; 2; 2; 3; 3; 0; 2; 9; 3; 0; 2; 9; 3; 9; 10; 1; 3; 3; 2]%N /\
+  observe 0 0 (final 0 0 [IRun ABoot; IRun (AProduce 100); IArrive 3; IRun AReap]) (IFault (AProduce 200) 1) =
+    (3%N, [WQDel [3%N]; WFail WMeta; WBlock 2 [3%N] 200 false; WBlock 2 [3%N] 200 true; WState 2; WHeight 2]).
+Proof. vm_compute. repeat split; reflexivity. Qed.
+
+(* the hypothesis of C11_cursor_fault_harmless_full is met: a batch is queued, write attempt 1 of the produce step is
+   the cursor write *)
+Example ex_cursor :
+  let s := final 1 0 [IRun ABoot; IRun (AProduce 100); IArrive 3; IRun AReap] in
+  nth_error (writes_of (fst (acts_of 1 0 s (AProduce 200)))) 1 = Some WMeta /\
+  block_txs (step 1 0 s (IFault (AProduce 200) 1)) = [[]; [3%N]].
+Proof. vm_compute. split; reflexivity. Qed.
+
 (* a crash-free history with repeated bytes, a restart and a clock regression (hypothesis of C11_no_dup_full) *)
 Definition ex_nocrash : list item :=
   [IRun ABoot; IArrive 1; IArrive 1; IArrive 2; IRun AReap; IRun (AProduce 100); IRun (AProduce 200); IArrive 1;
    IRun ABoot; IRun AReap; IArrive 3; IRun AReap; IRun (AProduce 150); IRun (AProduce 300)].
 
-Example ex_nocrash_ok : crash_free ex_nocrash = true /\ block_txs (final 2 0 ex_nocrash) = [[]; [1; 2]; []]%N.
-Proof. vm_compute. split; reflexivity. Qed.
+Example ex_nocrash_ok : crash_free ex_nocrash = true /\ fault_free ex_nocrash = true /\ block_txs (final 2 0 ex_nocrash) = [[]; [1; 2]; []]%N.
+Proof. vm_compute. repeat split; reflexivity. Qed.
 
 (* the hypothesis of C11_refused_handoff_full is met: bound 1, one batch waiting, another transaction arrives *)
 Example ex_refused :
